@@ -367,10 +367,9 @@ CLAIMED = {
             "PARTIAL: range dominance is outside the convergence theorem (the property does not claim a nearest-point limit "
             "for it; its corner map is proved NOT to be a Euclidean projection, rangeDom_corner_not_projection) and is tested"
             " against scipy SLSQP / violation -> 0 each run; the RATE of convergence and the PWL iterative projection's limit"
-            " are covered by the oracle here and by C04's model. From acceptance the side conditions `no range dominance` and"
-            " `no (d, d) dominance / joint-monotonicity pair` remain hypotheses of verifyLattice_cfgShape; the latter is still "
-            "carried but implied by acceptance since /repo's repair 18dd711 (verifyLattice_pairs_distinct in "
-            "Props/C16Full.lean, selfPair_rejected). F-C08-a (dict key without direction), "
+            " are covered by the oracle here and by C04's model. From acceptance only the side condition `no range dominance` remains"
+            " a hypothesis of verifyLattice_cfgShape / accepted_converges; `no (d, d) pair` follows from acceptance since /repo's "
+            "repair 18dd711 (AcceptedFacts.distinct via verifyDominances_distinct, selfPair_rejected). F-C08-a (dict key without direction), "
             "F-C08-c, F-C08-d ('Valley' projected onto the peak cone) are fixed in /repo. "),
     "C06": ("Lean 4 theorems on an executable model of linear_lib.project / categorical project / internal_utils "
             "partial-order projection + differential correspondence against the real constraints",
